@@ -440,6 +440,8 @@ impl DatabaseHandle {
     }
 
     pub(crate) async fn wait_for_change(&self) {
+        #[cfg(dnp3_verif)]
+        crate::verif::hooks::lock_point("wait_for_change");
         self.notify.notified().await
     }
 
